@@ -1,4 +1,5 @@
 import Proofs.Reflexive
+import Proofs.ReflexiveListing
 import Proofs.QueryShape
 import Proofs.MetaDelete
 
@@ -39,6 +40,21 @@ theorem sort_chains (across back : Inst → Option Inst) (set : List Inst) (chai
       (fun c hc => (List.sublist_flatten_of_mem hc).nodup hnd) hlen
       (fun c hc x hx => (hmem x).2 (List.mem_flatten.mpr ⟨c, hc, hx⟩))]
     exact dedupFirst_of_nodup hnd
+
+/-- the same WITHOUT asking the caller for the right listing: for a duplicate-free set made up of whole chains, given in
+    ANY order, some permutation of the chains lists them in the set-order of their heads, and the result is that
+    permutation flattened (the hypothesis `hheads` of `sort_chains` can always be met: chains_listing_exists) -/
+theorem sort_whole_chains (across back : Inst → Option Inst) (set : List Inst) (chains : List (List Inst)) (fuel : Nat)
+    (hset : set.Nodup) (hch : ∀ c ∈ chains, IsChain across back c) (hnd : chains.flatten.Nodup)
+    (hlen : ∀ c ∈ chains, c.length ≤ fuel) (hmem : ∀ x, x ∈ set ↔ x ∈ chains.flatten) :
+    ∃ chains' : List (List Inst), chains'.Perm chains ∧
+      set.filter (fun x => (across x).isNone) = chains'.filterMap List.head? ∧
+      sortReflexive across back set fuel = chains'.flatten := by
+  obtain ⟨cs, hp, hh⟩ := chains_listing_exists across back set chains hset hch hnd hmem
+  refine ⟨cs, hp, hh, ?_⟩
+  exact sort_chains across back set cs fuel (fun c hc => hch c (hp.mem_iff.mp hc))
+    (hp.flatten.nodup_iff.mpr hnd) (fun c hc => hlen c (hp.mem_iff.mp hc))
+    (fun x => (hmem x).trans (hp.flatten.mem_iff).symm) hh
 
 /-- sorting across the OTHER phrase (the roles of the two partner functions swap) returns each chain in
     the reverse order: the reversed chains are chains of the swapped functions -/
@@ -289,6 +305,25 @@ example : sortReflexive ac bk [8, 3, 7, 1, 2] 5 = [[7, 8], [1, 2, 3]].flatten :=
       rcases hc with rfl | rfl <;> simp)
     (by intro x; exact List.Perm.mem_iff (by decide))
     (by decide)
+
+/-- `sort_whole_chains` APPLIED to the same set with the chains listed in the WRONG order: the permutation it yields
+    must list [7, 8] first (7 precedes 1 in the set), so the result is again [7, 8, 1, 2, 3] -/
+example : ∃ chains' : List (List Inst), chains'.Perm [[1, 2, 3], [7, 8]] ∧
+    sortReflexive ac bk [8, 3, 7, 1, 2] 5 = chains'.flatten :=
+  let ⟨cs, hp, _, he⟩ := sort_whole_chains ac bk [8, 3, 7, 1, 2] [[1, 2, 3], [7, 8]] 5 (by decide)
+    (by
+      intro c hc
+      simp only [List.mem_cons, List.not_mem_nil, or_false] at hc
+      rcases hc with rfl | rfl
+      · refine ⟨by simp, ?_, ?_, ?_⟩ <;> simp [Adj, Succ, ac, bk]
+      · refine ⟨by simp, ?_, ?_, ?_⟩ <;> simp [Adj, Succ, ac, bk])
+    (by decide)
+    (by
+      intro c hc
+      simp only [List.mem_cons, List.not_mem_nil, or_false] at hc
+      rcases hc with rfl | rfl <;> simp)
+    (by intro x; exact List.Perm.mem_iff (by decide))
+  ⟨cs, hp, he⟩
 
 /-- a ring 1 → 2 → 3 → 1 (`bkR` leads around, `acR` is its inverse) -/
 def bkR : Inst → Option Inst := fun x => if x = 1 then some 2 else if x = 2 then some 3 else if x = 3 then some 1 else none
